@@ -51,3 +51,10 @@ package rootmulti
 //@   may_panic
 //@   modifies mdb.size, tree.cur
 //@   ensures [policy] params.typ == 2 && err == nil ==> unbox(store, "*store/iavl.Store").numRecent == rs.pruningOpts.keepRecent && unbox(store, "*store/iavl.Store").storeEvery == rs.pruningOpts.keepEvery
+
+// C11 (used by baseapp.txContext): setting the tracing context returns the very same multistore
+//@ func (rs *Store) SetTracingContext(tc types.TraceContext) (r types.MultiStore)
+//@   props C11
+//@   modifies rs.traceContext, elems(rs.traceContext)
+//@   loop 1 invariant forall r int :: r != old(ref(rs.traceContext)) ==> Hm_Str_Iface[r] == old(Hm_Str_Iface[r]) && Hmp_Str_Iface[r] == old(Hmp_Str_Iface[r])
+//@   ensures dyntype(r) == typeid("*store/rootmulti.Store") && unbox(r, "*store/rootmulti.Store") == rs
